@@ -1127,17 +1127,16 @@ fn signature(c: &Case, t: &Trace) -> String {
     if c.kind == 1 {
         s.push_str("remote:");
     }
-    s.push_str(&format!("h{}:n{}", c.hops, c.chans.len()));
-    let mut kinds: Vec<&str> = Vec::new();
-    for ch in &c.chans {
-        let k = ["mpsc", "oneshot", "watch", "bcast", "bin", "lr"][ch.ck as usize];
-        if !kinds.contains(&k) {
-            kinds.push(k);
-        }
+    let nb = match c.chans.len() {
+        0 => "0",
+        1 => "1",
+        2..=4 => "2-4",
+        _ => "5-8",
+    };
+    s.push_str(&format!("h{}:n{}", c.hops, nb));
+    if c.chans.iter().any(|ch| ch.ck >= 4) {
+        s.push_str(":il"); // a bin / lr half (interlock) travels
     }
-    kinds.sort();
-    s.push(':');
-    s.push_str(&kinds.join("+"));
     if c.chans.iter().any(|ch| ch.which >= 2) {
         s.push_str(":both");
     }
